@@ -9,4 +9,9 @@ namespace DV.Config
     `UnicodeDecodeError` into `AvpDecodeError` (false on the pinned tree). -/
 def addrGuard : Bool := false
 
+/-- `Message.from_bytes` restores the received flag octet after constructing
+    the command class (true since the `fix:` commit for C02; the pinned tree let
+    `__post_init__` overwrite the P bit). -/
+def decodeKeepsFlags : Bool := true
+
 end DV.Config
